@@ -63,8 +63,13 @@ TOL = 1e-9
 PINNED_TRI = {"quick": 473, "thorough": 1941}
 # pinned number of call histories on one mesh object (measured; depends on which disks admit cotangent weights)
 PINNED_HIST = {"quick": 978, "thorough": 10466}
-# config.sort_neighborhoods=False is outside the quantifier of the statement (see the report); set True to explore it as well
-EXPLORE_UNSORTED = False
+# border lengths of the sweep (every length from 3 up to the bound), unit-of-length deviations (exact powers of two)
+SWEEP_MAX = {"quick": 130, "thorough": 260}
+SWEEP_SHAPES = ("wheel", "fan", "strip", "ring2")
+SWEEP_RADIUS = 1 << 16
+UNIT_EXPONENTS = (-30, 30)
+NEW_DIMENSION_FAMILIES = ("cfg", "degen", "sweep", "unit")     # run once (no warm-blackboard twin: their inputs are partners of inputs that have one)
+LONG_BORDER = 16     # borders longer than the ones of the enumerated families carry ':long_border' in their input class
 
 
 # ================================================================================================ TRI(P)
@@ -273,8 +278,7 @@ def tasks(tier):
     for name in _zoo_names(tier):
         out.append({"family": "zoo", "name": name})
     out += _hist_tasks(tier)
-    if EXPLORE_UNSORTED:
-        out += [dict(t, unsorted=True) for t in out if t["family"] in ("tri", "zoo")]
+    out += _dimension_tasks(tier)
     return out
 
 
@@ -398,6 +402,10 @@ def _once_around(params, period):
     return False
 
 
+def _blen_class(bl):
+    return ":long_border" if bl > LONG_BORDER else ""
+
+
 class Disk:
     """Everything the oracle needs, from the raw face list (independent of mouette)."""
 
@@ -484,10 +492,12 @@ def _close2(p, q, scale=1.0):
 def judge(rep: Report, disk: Disk, mode, weights, wmap, pos, target):
     """All clauses of the statement on per-vertex positions `pos`."""
     bl = len(disk.loop)
-    bcls = f"{mode}:b%4={bl % 4}" + _SUFFIX[0]
-    icls = f"{mode}:b%4={bl % 4}:{weights}:{disk.int_class()}" + _SUFFIX[0]
+    bcls = f"{mode}:b%4={bl % 4}" + _blen_class(bl) + _SUFFIX[0]
+    icls = f"{mode}:b%4={bl % 4}:{weights}:{disk.int_class()}" + _blen_class(bl) + _SUFFIX[0]
     base = {"mesh": disk.name, "points": disk.fpts, "faces": disk.faces, "mode": mode, "weights": weights,
             "border_loop": disk.loop}
+    if _SUFFIX[0]:
+        base["deviation"] = _SUFFIX[0]
     callee = "TutteEmbedding.run"
     bpos = [pos[v] for v in disk.loop]
     scale = max([1.0] + [abs(c) for p in bpos for c in p if isinstance(c, float) and math.isfinite(c)])
@@ -624,8 +634,10 @@ def check_disk(rep: Report, disk: Disk, modes, geoms, collect=None):
             if disk.interior:
                 rep.count("cotan_admissible_with_interior:" + weights)
         for mode in modes:
-            icls = f"{mode}:b%4={bl % 4}:{weights}:{disk.int_class()}" + _SUFFIX[0]
+            icls = f"{mode}:b%4={bl % 4}:{weights}:{disk.int_class()}" + _blen_class(bl) + _SUFFIX[0]
             base = {"mesh": d.name, "points": d.fpts, "faces": d.faces, "mode": mode, "weights": weights}
+            if _SUFFIX[0]:
+                base["deviation"] = _SUFFIX[0]
             oV = call(_execute, d, mode, use_cotan, False)
             oC = call(_execute, d, mode, use_cotan, True)
             rep.traces += 2; rep.transitions += 2; rep.states += 1
@@ -1012,15 +1024,283 @@ def _zoo(name):
     raise KeyError(name)
 
 
+# ================================================================================================ further dimensions
+# (1) configuration switch config.sort_neighborhoods x face order, (2) degenerate geometry under uniform weights,
+# (3) border length sweep, (4) unit of length. Each of them re-uses the clause-by-clause oracle above (check_disk / judge);
+# the input class of everything found there carries the computed class of the deviation.
+class _suffix:
+    def __init__(self, s):
+        self.s = s
+
+    def __enter__(self):
+        self.old = _SUFFIX[0]
+        _SUFFIX[0] = self.old + self.s
+
+    def __exit__(self, *a):
+        _SUFFIX[0] = self.old
+
+
+@functools.lru_cache(maxsize=None)
+def _rim(n, radius):
+    pts = [(round(radius * math.cos(2 * math.pi * i / n + 0.3)), round(radius * math.sin(2 * math.pi * i / n + 0.3))) for i in range(n)]
+    for i in range(n):
+        assert F.orient2d(pts[i], pts[(i + 1) % n], pts[(i + 2) % n]) > 0, "rim not strictly convex"
+    return pts
+
+
+def _sweep_disk(shape, n):
+    """(integer points, faces) of a triangulated disk whose border has exactly n vertices.
+    wheel: one interior vertex; fan / strip: none (n - 3 chords, of the two extreme kinds: all at one vertex / a zigzag);
+    ring2: n + 1 interior vertices (two rings around a centre)."""
+    rim = [(x, y, 0) for x, y in _rim(n, SWEEP_RADIUS)]
+    if shape == "wheel":
+        return rim + [(1, 2, 0)], [(i, (i + 1) % n, n) for i in range(n)]
+    if shape == "fan":
+        return rim, [tuple(t) for t in F.fan_triangulation(n)]
+    if shape == "strip":
+        return [(i, 2 * (i % 2), 0) for i in range(n)], [((i, i + 2, i + 1) if i % 2 == 0 else (i, i + 1, i + 2)) for i in range(n - 2)]
+    if shape == "ring2":
+        inner = [(x, y, 0) for x, y in _rim(n, SWEEP_RADIUS // 2)]
+        faces = []
+        for k in range(n):
+            k1 = (k + 1) % n
+            faces += [(2 * n, n + k, n + k1), (n + k, k, k1), (n + k, k1, n + k1)]
+        return rim + inner + [(1, 2, 0)], faces
+    raise KeyError(shape)
+
+
+def _lifted(q):
+    return ([(LIFT_DEN * x, LIFT_DEN * y, x * x + y * y) for x, y in q], [(float(x), float(y), (x * x + y * y) / LIFT_DEN) for x, y in q])
+
+
+def _source_disks(src):
+    """The triangulated DISKS of a (JSON-pure) source spec: [(name, integer points (x, y, z), faces, lifted geometry or None)]."""
+    out = []
+    kind = src["src"]
+    if kind == "tri":
+        pts, T = tri_family(src["k"], src["j"], src["variant"])
+        for idx in range(src["lo"], src["hi"]):
+            q, g = relabelled(list(pts), T[idx], src["relabel"])
+            out.append((f"tri:{src['k']}+{src['j']}:{src['variant']}:{src['relabel']}#{idx}", [(x, y, 0) for x, y in q], g, _lifted(q)))
+    elif kind == "del":
+        D = del_inputs(src["tier"])
+        for idx in src["idx"]:
+            k, inner = D[idx]
+            pts = _polygon(k, True) + [tuple(p) for p in inner]
+            out.append((f"del:{k}+{len(inner)}#{idx}", [(x, y, 0) for x, y in pts], delaunay(pts, k), _lifted(pts)))
+    elif kind == "surf":
+        for name, n, faces in src["meshes"]:
+            out.append((name, F.moment_curve(n), faces, None))
+    elif kind == "zoo":
+        p, f = _zoo(src["name"])
+        out.append((src["name"], [tuple(int(c) for c in q) for q in p], f, None))
+    elif kind == "sweep":
+        for n in src["ns"]:
+            p, f = _sweep_disk(src["shape"], n)
+            out.append((f"sweep:{src['shape']}:{n}", p, f, None))
+    else:
+        raise KeyError(kind)
+    res = []
+    for name, ipts, faces, lift in out:
+        faces = [tuple(f) for f in faces]
+        ipts3 = [tuple(p) if len(p) == 3 else (p[0], p[1], 0) for p in ipts]
+        if _is_disk(faces, len(ipts3))[1]:
+            res.append((name, ipts3, faces, lift))
+    return res
+
+
+def _floats(ipts, s=1.0):
+    return [tuple(float(c) * s for c in p) for p in ipts]
+
+
+def _tri_sources(tier, nmax, relabels, batch):
+    out = []
+    for (k, j, variant) in _point_sets(tier):
+        if k + j <= nmax:
+            nT = len(tri_family(k, j, variant)[1])
+            for rl in relabels:
+                for lo in range(0, nT, batch):
+                    out.append({"src": "tri", "k": k, "j": j, "variant": variant, "relabel": rl, "lo": lo, "hi": min(nT, lo + batch)})
+    return out
+
+
+def _surf_sources(batch):
+    S = [m for m in _surf_inputs("quick") if _is_disk([tuple(f) for f in m[2]], m[1])[1]]
+    return [{"src": "surf", "meshes": S[lo:lo + batch]} for lo in range(0, len(S), batch)]
+
+
+def _zoo_sources(tier):
+    thorough = tier != "quick"
+    grids = [(3, 3), (3, 4)] + ([(4, 4), (2, 5)] if thorough else [])
+    names = [f"grid:{a}:{b}:{mode}:{z}" for a, b in grids for mode in ("tri", "tri2") for z in ("flat", "bowl")]
+    names += [f"{w}:{n}" for n in (range(9, 17) if thorough else range(9, 13)) for w in ("fan", "wheel")]
+    return [{"src": "zoo", "name": n} for n in names]
+
+
+def _del_sources(tier, every, batch):
+    idx = list(range(0, len(del_inputs(tier)), every))
+    return [{"src": "del", "tier": tier, "idx": idx[lo:lo + batch]} for lo in range(0, len(idx), batch)]
+
+
+def _sweep_lengths(tier):
+    return list(range(3, SWEEP_MAX[tier] + 1))
+
+
+def _dimension_tasks(tier):
+    thorough = tier != "quick"
+    out = []
+    # (1) config.sort_neighborhoods in {True, False} x every face in position 0 in turn
+    nmax = 7 if thorough else 6
+    for sort in (False, True):
+        rls = _relabels(tier) if not sort or thorough else ("id",)
+        srcs = _tri_sources(tier, nmax, rls, 6) + _zoo_sources(tier) + (_surf_sources(16) if not sort or thorough else _surf_sources(16)[::4])
+        out += [{"family": "cfg", "sort": sort, "source": sp} for sp in srcs]
+    # (2) degenerate geometry partners, uniform weights
+    out += [{"family": "degen", "source": sp} for sp in _tri_sources(tier, nmax, ("id", "scr"), 12) + _zoo_sources(tier) + _surf_sources(40)[::2]]
+    # (3) border length sweep
+    ns = _sweep_lengths(tier)
+    for shape in SWEEP_SHAPES:
+        for lo in range(0, len(ns), 4):
+            out.append({"family": "sweep", "source": {"src": "sweep", "shape": shape, "ns": ns[lo:lo + 4]}})
+    # (4) unit of length
+    for e in UNIT_EXPONENTS:
+        srcs = _tri_sources(tier, nmax, ("id", "mir"), 12) + _zoo_sources(tier) + _del_sources(tier, 8 if not thorough else 16, 12)
+        srcs += [{"src": "sweep", "shape": sh, "ns": [n for n in (5, 17, 64) if n <= SWEEP_MAX[tier]]} for sh in SWEEP_SHAPES]
+        out += [{"family": "unit", "exp": e, "source": sp} for sp in srcs]
+    return out
+
+
+def _neighbour_order_coverage(rep: Report, d: Disk):
+    """coverage only: does the library list, for some border vertex, another neighbour before the border successor?"""
+    m = F.build_surface(d.fpts, d.faces)
+    bl = len(d.loop)
+    for i, u in enumerate(d.loop):
+        nb = [int(v) for v in m.connectivity.vertex_to_vertices(u)]
+        if nb and nb[0] != d.loop[(i + 1) % bl]:
+            rep.flag("cfg:border_successor_not_listed_first:" + _SUFFIX[0].split(":")[1])
+            return
+
+
+def run_cfg(rep: Report, task):
+    """config.sort_neighborhoods as the task says (set by run_task) x every face order that puts one face first."""
+    sort = bool(task["sort"])
+    for (name, ipts3, faces, _lift) in _source_disks(task["source"]):
+        fpts = _floats(ipts3)
+        border = set(F.border_loops(faces)[0])
+        for f in range(len(faces)):
+            g = [faces[f]] + faces[:f] + faces[f + 1:]
+            touches = any(v in border for v in faces[f])
+            sfx = (":sorted" if sort else ":unsorted") + (":face0_touches_border" if touches else ":face0_interior")
+            with _suffix(sfx):
+                d = Disk(f"{name}:face{f}_first", ipts3, fpts, g)
+                _neighbour_order_coverage(rep, d)
+                check_disk(rep, d, MODES[:3], [("uniform", False, None, fpts), ("cotan", True, ipts3, fpts)])
+            rep.flag("cfg" + sfx)
+            rep.count("cfg_inputs:" + ("sorted" if sort else "unsorted"))
+
+
+def degenerate_geometries(d: Disk):
+    """[(computed kind, float points)]: the combinatorics of d with a legal but degenerate geometry."""
+    P = d.fpts
+    out = []
+    q = list(P); q[d.loop[1]] = P[d.loop[0]]
+    out.append(("zero_length_border_edge", q))
+    if d.interior:
+        v = d.interior[0]
+        q = list(P); q[v] = P[d.nbrs[v][0]]
+        out.append(("zero_length_interior_edge", q))
+    out.append(("all_vertices_at_one_point", [(0.0, 0.0, 0.0)] * d.n))
+    out.append(("all_vertices_on_one_line", [(float(v), 0.0, 0.0) for v in range(d.n)]))
+    a, b, c = d.faces[0]
+    q = list(P); q[c] = tuple((x + y) / 2 for x, y in zip(P[a], P[b]))
+    out.append(("zero_area_triangle", q))
+    return out
+
+
+def run_degen(rep: Report, task):
+    """Uniform weights: the result is a function of the combinatorics alone, so every geometry - also a degenerate one -
+    must be embedded, all clauses hold, and the coordinates are those obtained with the regular geometry."""
+    callee = "TutteEmbedding.run"
+    modes = MODES[:3]
+    for (name, ipts3, faces, _lift) in _source_disks(task["source"]):
+        fpts = _floats(ipts3)
+        d0 = Disk(name, ipts3, fpts, faces)
+        ref = {(mode, soc): call(_execute, d0, mode, False, soc) for mode in modes for soc in (False, True)}
+        rep.traces += len(ref); rep.transitions += len(ref)
+        for kind, q in degenerate_geometries(d0):
+            with _suffix(":geom=" + kind):
+                d = Disk(f"{name}:{kind}", None, q, faces)
+                got = {}
+                check_disk(rep, d, modes, [("uniform", False, None, q)], got)
+            for mode in modes:
+                for soc in (False, True):
+                    o, r = got[(mode, "uniform", soc)][0], ref[(mode, soc)]
+                    if not r.ok:
+                        rep.count("degen_reference_run_failed")      # reported by the families of regular inputs
+                    elif o.ok:
+                        rep.evaluations += 1
+                        if _same_numbers(o.value, r.value):
+                            rep.count("degen_equals_regular:" + kind)
+                        else:
+                            rep.violation("C17.uniform.independent_of_geometry", callee, "mismatch:differs_from_result_on_regular_geometry",
+                                          f"{mode}:{_storage(soc)}:geom={kind}",
+                                          {"mesh": d.name, "faces": faces, "mode": mode, "save_on_corners": soc, "degenerate_points": q,
+                                           "regular_points": fpts, "got": _numbers(o.value), "on_regular_geometry": _numbers(r.value)})
+            rep.count("degen_inputs:" + kind)
+
+
+def run_unit(rep: Report, task):
+    """The same disk measured in another unit of length (all coordinates times an exact power of two): every clause holds and the
+    coordinates are the ones obtained in the original unit (uniform weights ignore the geometry, cotangents are scale-invariant)."""
+    callee = "TutteEmbedding.run"
+    e = int(task["exp"])
+    s = 2.0 ** e
+    modes = MODES[:3]
+    for (name, ipts3, faces, lift) in _source_disks(task["source"]):
+        fpts = _floats(ipts3)
+        plain = {"uniform": (False, ipts3, fpts), "cotan": (True, ipts3, fpts)}
+        if lift is not None:
+            plain["cotan-lift"] = (True, lift[0], lift[1])
+        for w, (_uc, _ip, fp) in plain.items():      # exact change of unit (no rounding, no underflow)
+            assert all(c * s / s == c and (c == 0 or c * s != 0) for p in fp for c in p)
+        geoms = [(w, uc, ip, [tuple(c * s for c in p) for p in fp]) for w, (uc, ip, fp) in plain.items()]
+        got = {}
+        with _suffix(f":unit=2^{e}"):
+            check_disk(rep, Disk(name, ipts3, geoms[0][3], faces), modes, geoms, got)
+        for (mode, w, soc), (o, dd, _wmap) in sorted(got.items()):
+            uc, ip, fp = plain[w]
+            r = call(_execute, Disk(name, ip, fp, faces), mode, uc, soc)
+            rep.traces += 1; rep.transitions += 1
+            if not r.ok:
+                rep.count("unit_reference_run_failed")               # reported by the families of regular inputs
+            elif o.ok:
+                rep.evaluations += 1
+                if _same_numbers(o.value, r.value):
+                    rep.count(f"unit_equals_original:{w}:2^{e}")
+                else:
+                    rep.violation("C17.unit_of_length", callee, "mismatch:differs_from_result_in_original_unit",
+                                  f"{mode}:{w}:{_storage(soc)}:unit=2^{e}",
+                                  {"mesh": name, "faces": faces, "mode": mode, "weights": w, "save_on_corners": soc, "points": dd.fpts,
+                                   "original_points": fp, "factor": s, "got": _numbers(o.value), "in_original_unit": _numbers(r.value)})
+        rep.count(f"unit_inputs:2^{e}")
+
+
+def run_sweep(rep: Report, task):
+    for (name, ipts3, faces, _lift) in _source_disks(task["source"]):
+        dispatch(rep, name, ipts3, faces, MODES[:3])
+        rep.count("sweep_inputs:" + task["source"]["shape"])
+        rep.flag(f"sweep:{task['source']['shape']}:{len(F.border_loops(faces)[0])}")
+
+
 _SUFFIX = [""]      # appended to every input class of the task (":unsorted" when config.sort_neighborhoods is False)
 
 
 def run_task(task, rep: Report):
     import mouette as M     # bound by the runner; imported here, never at module level
     old = M.config.sort_neighborhoods
-    M.config.sort_neighborhoods = not task.get("unsorted", False)
-    _SUFFIX[0] = ":unsorted" if task.get("unsorted") else ""
+    _SUFFIX[0] = ""
     try:
+        M.config.sort_neighborhoods = bool(task.get("sort", True))     # the documented switch; every mesh of the task is built under it
         _run_task(task, rep)
     finally:
         M.config.sort_neighborhoods = old
@@ -1059,6 +1339,14 @@ def _run_task(task, rep: Report):
     elif fam == "hist":
         name, ip, g = _hist_disk(task["disk"])
         check_histories(rep, name, ip, g, task["depth"], task["configs"])
+    elif fam == "cfg":
+        run_cfg(rep, task)
+    elif fam == "degen":
+        run_degen(rep, task)
+    elif fam == "unit":
+        run_unit(rep, task)
+    elif fam == "sweep":
+        run_sweep(rep, task)
     else:
         p, f = _zoo(task["name"])
         if any(isinstance(c, float) and c != int(c) for q in p for c in q):
@@ -1089,7 +1377,7 @@ def finish(tier, rep: Report):
         fails.append("no disk was ever embedded")
     # family sizes: Catalan self-check for j = 0 (asserted in tri_family) and the pinned totals
     total = rep.counters.get("triangulations", 0)
-    nrl = len(_relabels(tier)) * (2 if EXPLORE_UNSORTED else 1)
+    nrl = len(_relabels(tier))
     want = sum(len(tri_family(k, j, v)[1]) for (k, j, v) in _point_sets(tier)) * nrl
     if total != want:
         fails.append(f"triangulations executed {total} != enumerated {want}")
@@ -1126,4 +1414,4 @@ def dupflag_variant(task, tier):
 def warm_variant(task, tier):
     """Tasks that are also run on meshes whose attribute blackboard is already filled with (valid) persistent attributes
     (mc/families.py WARM; the runner appends ':warm_attribute_blackboard' to the input class of anything found there)."""
-    return bool(True)
+    return task.get("family") not in NEW_DIMENSION_FAMILIES
